@@ -217,6 +217,9 @@ FINDINGS: typing.Dict[str, dict] = {
         trigger=lambda j: (j.lang == 'cpp' or (j.lang == 'c' and j.variant == 'cxx14')) and bool(verbatim_names(
             j, ({'size_t', 'std'} | ({'allocator_type'} if (j.cfg['std'] or '').endswith('pmr') else set())) & attr_names_of(j.clos))),
         signature=r'.'),      # diagnostics of these clashes vary (allocator traits, template lookup): any first diagnostic; the trigger is by name
+    'F-C06-CPP-PADONLY': dict(
+        trigger=lambda j: j.lang == 'cpp' and not j.cfg['pod'] and any(t.get('padding_only_sections') for t in j.clos),
+        signature=r"unused parameter .obj."),
     'F-C06-CPP-NS-SHADOW': dict(
         trigger=lambda j: ns_shadow(j),
         signature=r'is not a member of|does not name a type|is not a type|has not been declared|is not a (class|namespace)|names the constructor'),
@@ -552,6 +555,8 @@ def parse_model(out: str) -> typing.List[dict]:
             cur['ns_files'].append(tk[1])
         elif tk[0] == 'SUPPORT':
             cur['support'].append(tk[1])
+        elif tk[0] == 'FACT':
+            cur.setdefault('facts', {})[tk[1]] = tk[2] == '1'
         elif tk[0] == 'ERR':
             cur['err'] = l
     return res
@@ -572,8 +577,6 @@ def compare_model(model: dict, run: dict, cfg: dict, types: typing.Dict[str, dic
         if cfg['lang'] in ('c', 'cpp'):
             if sorted(m['includes']) != sorted(r['includes']):
                 diffs.append('%s includes: model %s, implementation %s' % (rel, sorted(m['includes']), sorted(r['includes'])))
-            if r['includes'] != sorted(r['includes']) and cfg['lang'] == 'c':
-                diffs.append('%s includes not sorted: %s' % (rel, r['includes']))
             g = r['guard'][0] if r['guard'] else None
             if m['guard'] != g:
                 diffs.append('%s guard: model %s, implementation %s' % (rel, m['guard'], g))
@@ -795,6 +798,20 @@ def main(chk: core.Check, replay: typing.Optional[str] = None) -> int:
     live, probe_detail = probe_findings(chk, builder)
     for fid in sorted(live):
         chk.report_known(fid)
+    # facts the model computes from the regenerated tables, compared with what the implementation does (both states of the tree)
+    facts = {}
+    if ok_model:
+        fr = run_model(exe, [['FACTS']])
+        facts = (fr[0].get('facts') or {}) if fr else {}
+        if 'c_pod_selfsufficient' not in facts:
+            broken.append('model driver does not report its facts')
+        else:
+            pod_listed = chk.is_known('F-C06-C-POD')
+            pod_live = 'F-C06-C-POD' in live
+            if pod_listed and facts['c_pod_selfsufficient'] == pod_live:
+                broken.append('C06_std_includes_cover_c_pod_iff: the regenerated tables say POD C headers are %sself-sufficient but the compile probe of '
+                              'F-C06-C-POD says the finding %s' % ('' if facts['c_pod_selfsufficient'] else 'NOT ', 'reproduces' if pod_live else 'does not reproduce'))
+    quirk_union = bool(facts.get('q_union_live', False))
 
     # 3. cases
     gen = dg.Gen(chk.rng, core.REPO)
@@ -862,7 +879,7 @@ def main(chk: core.Check, replay: typing.Optional[str] = None) -> int:
             for msg in closure_oracle(r, cfg):
                 oracle_bad.append({'case_index': ci, 'config': cfg_key(cfg), 'cfg': cfg, 'what': msg})
             if ok_model:
-                requests.append(model_lines(r, cfg, 'F-C06-CPP-VARIANT' in live))
+                requests.append(model_lines(r, cfg, quirk_union))
                 req_index.append((ci, cfg))
         ccfgs = configs
         if quick and ci >= 2 + len(dg.witness_corpus()):
